@@ -60,7 +60,7 @@ PROPERTIES = {
     ),
     "C19": dict(
         modules=["contracts.c19_sources", "contracts.c06_input_types", "contracts.c06_defaults", "contracts.c04_modules"],
-        bounded=[_bounded.lazy("contracts.e2e_sources", "bounded_sources")],
+        bounded=[_bounded.lazy("contracts.e2e_sources", "bounded_sources"), _bounded.lazy("contracts.e2e_config", "bounded_bad_remote_urls")],
         explanation="introspection decision chain (complete, loop-free), header resolution, file discovery (walk_graphql_files) "
                     "with a trace invariant; defaults through the C06 contracts; equality of the clients generated from the three "
                     "sources by the end-to-end stand-in",
@@ -111,7 +111,8 @@ PROPERTIES = {
     ),
     "C14": dict(
         modules=["contracts.c14_builder", "contracts.c14_generated"],
-        bounded=[_bounded.lazy("contracts.e2e_builder", "bounded_builder"), _bounded.lazy("contracts.e2e_fuzz_builder", "bounded_generated_expressions")],
+        bounded=[_bounded.lazy("contracts.e2e_builder", "bounded_builder"), _bounded.lazy("contracts.e2e_fuzz_builder", "bounded_generated_expressions"),
+                 _bounded.lazy("contracts.e2e_scalars", "bounded_scalar_positions")],
         explanation="run-time builder: fresh variable names, argument/field-name nodes under contract; the document-assembly methods the generator emits into every client (extracted from a freshly generated async and sync client on every run) under contract; whole documents by an end-to-end bounded stand-in",
         assumptions=["termination of _format_variable_name's renaming loop is not proved"],
     ),
